@@ -209,7 +209,15 @@ def object_histories(ctx):
     import eqsig
     from eqsig import sdof
     rng = ctx.rng
-    for i in range(25 if ctx.tier == 'quick' else 300):
+    OPS = ['series()', 'series(rt)', 'series(xi)', 'rt=', 'gen_rs(rt)', 'gen_rs()', 'add_constant', 'reset_values', 's_a']
+    # directed histories first (read - change ONE thing by every available route - read again), then random ones: detection of a stale
+    # series must not depend on the luck of the draw
+    directed = [['series()', ch, 'series()'] for ch in ('rt=', 'gen_rs(rt)', 'series(rt)', 'add_constant', 'reset_values', 'gen_rs()', 's_a')] + \
+               [['series(xi)', ch, 'series()'] for ch in ('rt=', 'gen_rs(rt)', 'reset_values')] + \
+               [['series(rt)', 'rt=', 'series()'], ['gen_rs(rt)', 'series()', 'rt=', 'series()'], ['series()', 'series(xi)', 'series()'],
+                ['s_a', 'series()', 'gen_rs(rt)', 's_a', 'series()']]
+    n_random = 25 if ctx.tier == 'quick' else 300
+    for i in range(len(directed) + n_random):
         n = rng.randint(8, 120)
         dt = rng.choice([0.01, 0.02, 0.005])
         a = gen.noise_record(rng, n)
@@ -217,8 +225,8 @@ def object_histories(ctx):
         cur_a = a.copy()
         cur_rt = np.array(asig.response_times)
         hist = []
-        for step in range(rng.randint(2, 7)):
-            op = rng.choice(['series()', 'series(rt)', 'series(xi)', 'rt=', 'gen_rs(rt)', 'gen_rs()', 'add_constant', 'reset_values', 's_a'])
+        word = directed[i] if i < len(directed) else [rng.choice(OPS) for _ in range(rng.randint(2, 7))]
+        for op in word:
             xi = 0.05
             if op == 'series(rt)':
                 cur_rt = np.array(sorted(rng.uniform(0.05, 2.0) for _ in range(rng.randint(1, 4))))
